@@ -92,7 +92,10 @@ type VC struct {
 	globalIdx map[string]int
 	timeouts  int
 	assertSeen map[string]bool
+	assSyms    map[int]map[string]bool
+	assDef     map[int]string
 	ncell      int
+	freshHeaps map[string]bool // heaps that may hold memory allocated by the function under proof
 	funcGlobals map[*ssa.Global]*ssa.Function
 	modCapture *[]modCapture
 	modCache   map[*ssa.Function]*modInfo
@@ -362,7 +365,7 @@ func (vc *VC) heapRead(st *State, name string, key Term) Term {
 	if vc.spec == 0 || true {
 		for _, r := range vc.heapRoots(st, name) {
 			b, ok := vc.boundOfRoot(r)
-			if !ok || b.S == st.nalloc.S {
+			if !ok || b.S == st.nalloc.S || !vc.freshHeaps[name] {
 				continue
 			}
 			z := vc.zeroOfSort(vs)
@@ -396,7 +399,12 @@ func (vc *VC) mergeStates(conds []Term, sts []*State) *State {
 			ckeys[k] = true
 		}
 	}
+	var cks []int
 	for k := range ckeys {
+		cks = append(cks, k)
+	}
+	sort.Ints(cks)
+	for _, k := range cks {
 		var vs []Val
 		var cs []Term
 		for i, s := range sts {
@@ -473,6 +481,18 @@ func (vc *VC) mergeStates(conds []Term, sts []*State) *State {
 }
 
 // newAlloc returns a fresh allocation base pointer.
+// markFresh records that memory of type t was allocated: reads of its heaps may hit fresh cells.
+func (vc *VC) markFresh(t types.Type) {
+	if vc.freshHeaps == nil {
+		vc.freshHeaps = map[string]bool{}
+	}
+	hs := map[string]bool{}
+	vc.heapsOfType(t, hs)
+	for h := range hs {
+		vc.freshHeaps[h] = true
+	}
+}
+
 func (vc *VC) newAlloc(st *State, slice bool) Term {
 	n := app(SInt, "+", st.nalloc, Term{"1", SInt})
 	if vc.qdepth == 0 {
